@@ -226,10 +226,15 @@ func Chunks[T any, Slice ~[]T](vs Slice, n int) []Slice {
 	} else if n == 0 || n >= len(vs) {
 		return []Slice{vs}
 	}
-	out := make([]Slice, 0, (len(vs)+n-1)/n)
+	// N.B. Here 0 < n < len(vs). Avoid len(vs)+n and i+n, which can overflow
+	// for a slice of zero-size elements.
+	out := make([]Slice, 0, (len(vs)-1)/n+1)
 	i := 0
 	for i < len(vs) {
-		end := min(i+n, len(vs))
+		end := len(vs)
+		if n < end-i {
+			end = i + n
+		}
 		out = append(out, vs[i:end:end])
 		i = end
 	}
